@@ -35,9 +35,46 @@ def run(chk):
         return []
     spec = dict(dtypes=[np.float64, np.complex128], anns=[()], extra=extra, skip_choice=skip_choice, hyps=hyps)
     rp = run_rules(chk, "C08", ["diag", "trace"], default_spec=spec)
+    from props import c08_idx
+    c08_idx.run(chk)
+
+    def replayer(ob):
+        w = ob.witness or {}
+        if w.get("engine") == "EXACTDIAG":
+            return replay_exact_diag(w)
+        return rp(ob)
+    return replayer
+
+
+def replay_exact_diag(w):
+    """the real exact_diag on generic (matmat-only) operators on both sides of the block size, all offsets, vs numpy.diag"""
+    import json
+    import subprocess
+    code = r"""
+import json, numpy as np
+from cola.ops.operator_base import LinearOperator
+from cola.linalg.trace.diagonal_estimation import exact_diag
+rng = np.random.default_rng(0)
+for n in (1, 3, 50, 100, 101, 130, 150, 200, 250):
+    M = rng.standard_normal((n, n))
+    A = LinearOperator(np.float64, (n, n), matmat=lambda X, M=M: M @ X)
+    for k in sorted({0, 1, -1, 2, -2, 7, -7, 99, -99, 100, -100, 101, -101, n - 1, 1 - n}):
+        if abs(k) >= n:
+            continue
+        try:
+            d = exact_diag(A, k, 100)
+            ok = d.shape == np.diag(M, k).shape and np.allclose(d, np.diag(M, k))
+            obs = "max abs error %.3g, length %d (expected %d)" % (float(np.max(np.abs(d - np.diag(M, k)))) if d.shape == np.diag(M, k).shape else -1, len(d), n - abs(k))
+        except Exception as e:
+            ok, obs = False, "raises %s: %s" % (type(e).__name__, e)
+        if not ok:
+            print(json.dumps(dict(replayed=True, failing_input_found=True, observed=obs, expected="numpy.diag(M, k)", input="generic matmat-only operator n=%d, k=%d" % (n, k),
+                                  how="real exact_diag vs numpy.diag of the dense matrix")))
+            raise SystemExit
+print(json.dumps(dict(replayed=True, failing_input_found=False, trials="9 sizes x up to 15 offsets")))
+"""
+    p = subprocess.run(["/venv/bin/python", "-c", code], cwd="/repo", capture_output=True, text=True, timeout=300)
     try:
-        from props import c08_idx
-        c08_idx.run(chk)
-    except ImportError:
-        chk.notes.append("exact_diag index obligations (IDX) not built yet")
-    return rp
+        return json.loads(p.stdout.strip().splitlines()[-1])
+    except Exception:
+        return dict(replayed=False, failing_input_found=False, error=p.stdout[-500:] + p.stderr[-500:])
